@@ -479,6 +479,8 @@ RefClausesW(s, e, t, connS, connT) ==
         (* working tree holds a directory where the snapshot has a file (or the reverse): that is a failure to write, *)
         (* not a refusal for invalid arguments, and C18's last sentence does not speak about it (C08_Accept leaves    *)
         (* the same cases alone).  Without the reflog observation the position cannot be resolved: no verdict.        *)
+        (* a command line from the CLI grammar ("raw") that is one of the commands which move branches or HEAD *)
+        rawRef == e.ev = "raw" /\ ("sub" \notin DOMAIN e \/ e.sub \in {"branch", "switch", "update-ref", "commit", "reset", "init", ""})
         hardMayFail == e.ev = "reset" /\ "mode" \in DOMAIN e /\ e.mode = "hard"
                          /\ (~(ok0 /\ HasObs(s, "reflog"))
                               \/ (PosValid(s, e) /\ WtConflict(S, PathsOf(Flatten(S, Obj(S, TargetId(s, e)).tree)))))
@@ -512,12 +514,12 @@ RefClausesW(s, e, t, connS, connT) ==
     Cl("C10_UpdateRefRefuse", {"C10", "C03"}, e.ev = "updateref" /\ ok0 /\ (~e.exact \/ e.branch \notin Branches(S) \/ ~IsCommit(S, e.id)),
         e.ev = "updateref" /\ ok0 /\ (~e.exact \/ e.branch \notin Branches(S) \/ ~IsCommit(S, e.id)) =>
             Refused(e) /\ Unchanged(s, t)),
-    Cl("C10_Others", {"C10"}, IsCmd(e) /\ ok0 /\ e.ev \notin {"commit", "reset", "updateref", "branchd", "branchr"},
-        IsCmd(e) /\ ok0 /\ e.ev \notin {"commit", "reset", "updateref", "branchd", "branchr"} => RestSame({})),
-    Cl("C10_NoSpurious", {"C10"}, IsCmd(e) /\ ok0 /\ e.ev \notin {"commit", "branch", "switchc", "branchr"},
-        IsCmd(e) /\ ok0 /\ e.ev \notin {"commit", "branch", "switchc", "branchr"} => Branches(T) \subseteq Branches(S)),
-    Cl("C10_HeadStays", {"C10"}, IsCmd(e) /\ ok0 /\ e.ev \notin {"switch", "switchc", "branchr", "updateref"},
-        IsCmd(e) /\ ok0 /\ e.ev \notin {"switch", "switchc", "branchr", "updateref"} => T.head = S.head),
+    Cl("C10_Others", {"C10"}, IsCmd(e) /\ ok0 /\ ~rawRef /\ e.ev \notin {"commit", "reset", "updateref", "branchd", "branchr"},
+        IsCmd(e) /\ ok0 /\ ~rawRef /\ e.ev \notin {"commit", "reset", "updateref", "branchd", "branchr"} => RestSame({})),
+    Cl("C10_NoSpurious", {"C10"}, IsCmd(e) /\ ok0 /\ ~rawRef /\ e.ev \notin {"commit", "branch", "switchc", "branchr"},
+        IsCmd(e) /\ ok0 /\ ~rawRef /\ e.ev \notin {"commit", "branch", "switchc", "branchr"} => Branches(T) \subseteq Branches(S)),
+    Cl("C10_HeadStays", {"C10"}, IsCmd(e) /\ ok0 /\ ~rawRef /\ e.ev \notin {"switch", "switchc", "branchr", "updateref"},
+        IsCmd(e) /\ ok0 /\ ~rawRef /\ e.ev \notin {"switch", "switchc", "branchr", "updateref"} => T.head = S.head),
     Cl("C11_Append", {"C11"}, IsCmd(e) /\ HasObs(s, "reflog") /\ s.obs.reflog.res = "ok" /\ HasObs(t, "reflog") /\ connS,
         IsCmd(e) /\ HasObs(s, "reflog") /\ s.obs.reflog.res = "ok" /\ HasObs(t, "reflog") /\ connS =>
             /\ t.obs.reflog.res = "ok"
@@ -527,6 +529,14 @@ RefClausesW(s, e, t, connS, connT) ==
             /\ t.obs.reflog.res = "ok"
             /\ Len(View(t)) >= Len(View(s)) + 1
             /\ View(t)[1].full = HeadId(T) /\ View(t)[1].kind = "checkout"),
+    (* C10: "a refused operation changes nothing" - for every spelling of the branch commands, also the ones with *)
+    (* surplus or combined arguments (`switch -c new existing`) that the command line grammar produces            *)
+    Cl("C10_RefusedNothing", {"C10"},
+        IsCmd(e) /\ Refused(e) /\ (e.ev \in {"branch", "branchd", "branchr", "switch", "switchc", "updateref", "branchlist"}
+                                     \/ (e.ev = "raw" /\ "ru" \in DOMAIN e /\ e.ru /\ "sub" \in DOMAIN e /\ e.sub \in {"branch", "switch", "update-ref", "rev-parse"})),
+        IsCmd(e) /\ Refused(e) /\ (e.ev \in {"branch", "branchd", "branchr", "switch", "switchc", "updateref", "branchlist"}
+                                     \/ (e.ev = "raw" /\ "ru" \in DOMAIN e /\ e.ru /\ "sub" \in DOMAIN e /\ e.sub \in {"branch", "switch", "update-ref", "rev-parse"}))
+            => Unchanged(s, t)),
     Cl("C18_RefusedUnchanged", {"C18"}, IsCmd(e) /\ Refused(e) /\ RefusedUnchangedApplies(e) /\ ~hardMayFail,
         IsCmd(e) /\ Refused(e) /\ RefusedUnchangedApplies(e) /\ ~hardMayFail => Unchanged(s, t))
     >>
